@@ -48,3 +48,14 @@ Definition asm_h2v1_plain_group (steps : Z * Z * Z) (max_v : Z) (rows : list (li
 Definition c_h2v1_plain_group (max_v : Z) (rows : list (list Z)) := c_rows plain1_body 1 1 max_v rows.
 Definition asm_h2v2_plain_group (steps : Z * Z * Z) (max_v : Z) (rows : list (list Z)) := asm_rows plain2_body steps max_v rows.
 Definition c_h2v2_plain_group (max_v : Z) (rows : list (list Z)) := c_rows plain2_body 1 2 max_v rows.
+
+(* ---- h2v2 merged upsampling: order of the row stores.  jpeg_skip_scanlines() passes the SAME buffer
+   (spare_row) for both output rows, so what the buffer holds afterwards is decided by which row is
+   stored last.  alias r = buffer that output row r points to; data r = pixels of output row r. *)
+Definition final_store (order : list Z) (alias : Z -> Z) (data : Z -> list Z) (b : Z) : option (list Z) :=
+  fold_left (fun acc r => if alias r =? b then Some (data r) else acc) order None.
+(* asm: one h2v1 call per entry of merged_h2v2_call_rows_* (generated), each storing a whole row *)
+Definition asm_merged2_final (calls : list Z) := final_store calls.
+(* C (h2v2_merged_upsample_internal): per column pair, outptr0 is stored before outptr1 *)
+Definition c_merged2_final (alias : Z -> Z) (data : Z -> list Z) (b : Z) : option (list Z) :=
+  final_store [0; 1] alias data b.
